@@ -44,6 +44,8 @@ pub fn chunk(cx: &mut Ctx, style: Style, space: usize, remaining: usize) -> usiz
     if max == 0 {
         return 0;
     }
+    // byte-at-a-time styles over very long remainders cost a lot and add nothing
+    let style = if remaining > 12_000 && matches!(style, Style::OneByte | Style::Tiny) { Style::Large } else { style };
     let k = match style {
         Style::Whole => max,
         Style::OneByte => 1,
